@@ -97,9 +97,22 @@ func NewWorld(t *testing.T, c *sim.Case, res *sim.Result) *World {
 	_ = os.RemoveAll(dir)
 	_ = os.MkdirAll(dir, 0o755)
 	w := &World{T: t, C: c, Res: res, Dir: dir, wiring: int(c.CfgInt("wiring", 1))}
-	w.FS = sim.NewSimFS(dir)
-	w.FS.Trace = res.Trace
+	w.FS = tracedFS(dir, res.Trace)
 	return w
+}
+
+// tracedFS builds a SimFS whose state-changing calls go into the trace, except
+// writes to the LOCK file: its content is the process id, so its size differs
+// between the process that found a failure and the one that replays it.
+func tracedFS(dir string, tr *sim.Trace) *sim.SimFS {
+	fs := sim.NewSimFS(dir)
+	fs.BeforeMutation = func(ev sim.FSEvent, torn int64) {
+		if torn >= 0 || ev.Class == "lock" {
+			return
+		}
+		tr.Add("fs %s %s[%d] %s %d", ev.Op, ev.Class, ev.ClassN, ev.Path, ev.Size)
+	}
+	return fs
 }
 
 func (w *World) options() *NoKV.Options {
